@@ -326,7 +326,7 @@ theorem InvH.step {k : Cfg} {s s' : St} {l : Label} (h : InvH s) (hf : fire k s 
         exact (h.pop hp).of_ps rfl rfl rfl rfl (fun q => Or.inl rfl)
       · split at hf
         · cases hf; exact h.of_ps rfl rfl rfl rfl (fun q => Or.inl rfl)
-        · cases hf
+        · cases hf; exact h.of_ps rfl rfl rfl rfl (fun q => Or.inl rfl)
     · cases hf
   | complete id e =>
     simp only [fire] at hf
@@ -641,7 +641,7 @@ theorem InvC.step {k : Cfg} {s s' : St} {l : Label} (h : InvC k s) (hf : fire k 
         exact h.congr rfl rfl
       · split at hf
         · cases hf; exact h.congr rfl rfl
-        · cases hf
+        · cases hf; exact h.congr rfl rfl
     · cases hf
   | complete id e =>
     simp only [fire] at hf
@@ -870,7 +870,7 @@ theorem InvZ.step {k : Cfg} {s s' : St} {l : Label} (h : InvZ k s) (hH : InvH s)
       · rename_i s1 hp; cases hf; exact (h.pop hp).congr rfl rfl rfl rfl rfl
       · split at hf
         · cases hf; exact h.congr rfl rfl rfl rfl rfl
-        · cases hf
+        · cases hf; exact h.congr rfl rfl rfl rfl rfl
     · cases hf
   | complete id e =>
     simp only [fire] at hf
@@ -1041,7 +1041,7 @@ theorem InvW.step {k : Cfg} {s s' : St} {l : Label} (h : InvW s) (hC : InvC k s)
         exact h.of_sig rfl rfl (fun _ a => a)
       · split at hf
         · cases hf; exact h.of_sig rfl rfl (fun _ a => a)
-        · cases hf
+        · cases hf; exact h.of_sig rfl rfl (fun _ a => a)
     · cases hf
   | complete id e =>
     simp only [fire] at hf
@@ -1213,7 +1213,7 @@ theorem InvR.step {k : Cfg} {s s' : St} {l : Label} (h : InvR s) (hf : fire k s 
         exact h.of_ps rfl rfl rfl (fun _ _ a => a)
       · split at hf
         · cases hf; exact h.of_ps rfl rfl rfl (fun _ _ a => a)
-        · cases hf
+        · cases hf; exact h.of_ps rfl rfl rfl (fun _ _ a => a)
     · cases hf
   | complete id e =>
     simp only [fire] at hf
